@@ -82,7 +82,7 @@ func runFixtures(verif string) []string {
 	expect := map[string]string{
 		"fx.BadClock": "ND-1", "fx.BadConstSeed": "ND-2", "fx.BadMapSum": "ND-3", "fx.BadMapFirst": "ND-3",
 		"fx.BadComparator$1": "ND-4", "fx.BadGlobalWrite": "SHR-1", "fx.(*BadSource).BlankParams": "SHR-2",
-		"fx.BadUseRegistry": "SHR-1", "fx.BadClampStrict": "E5-formula", "fx.BadInPlace": "OWN-1", "fx.BadRemoveFirst": "OWN-1", "fx.BadForkedAppend": "OWN-2", "fx.BadTwoAppends": "OWN-3", "fx.BadSharedRange": "OWN-4", "fx.BadWeightedTotal": "E5-formula",
+		"fx.BadUseRegistry": "SHR-1", "fx.BadClampStrict": "E5-formula", "fx.BadInPlace": "OWN-1", "fx.BadRemoveFirst": "OWN-1", "fx.BadForkedAppend": "OWN-2", "fx.BadTwoAppends": "OWN-3", "fx.BadSharedRange": "OWN-4", "fx.BadCapturedLoopVar": "OWN-4", "fx.BadWeightedTotal": "E5-formula",
 	}
 	fired := map[string]map[string]bool{}
 	for _, o := range c.Obs {
